@@ -103,6 +103,11 @@ def describe(case, mo):
 
 
 def classify(case, io, mo):
+    if C02.hs_ttcfg_crash(case, io):
+        return "c03_heap_search_ttcfg_order"
+    if case["grammar"]["kind"] == "size" and case["enum"] in ("hs", "hs_bucket") and mo is not None \
+            and mo["sorted"] == 0 and mo["costs_ok"] == 1:
+        return "c03_heap_search_ttcfg_order"
     return None
 
 
